@@ -628,6 +628,39 @@ fn nearly_uniform_pages(rep: &mut Report) {
     }
 }
 
+/// New pages of 4 KiB and more whose data ends exactly on a 16-byte boundary (no padding at all), one byte short of it,
+/// and one byte past it: header, zeros, FF padding — compared byte for byte with the reference image.
+fn large_pages_around_a_chunk_boundary(rep: &mut Report) {
+    let mut done = 0usize;
+    for cb in [1u32, 2, 4, 12, 3] {
+        let h = cb * 8 - if cb == 3 { 5 } else { 0 };
+        let mut picked = 0usize;
+        let mut w = 4096 / cb;
+        while picked < 4 && w < 70_000 {
+            if (4 + w * cb) % 16 == 0 {
+                for dw in [0u32, 1, 15] {
+                    let ww = w + dw;
+                    rep.case(Some(mix(u64::from(ww) << 32 | u64::from(h), 0xB0DA)));
+                    let want = RefPage::new(3, ww, h).image();
+                    match catch(|| Page::new(PageId(3), ww, h).as_bytes().to_vec()) {
+                        Ok(got) if got == want => done += 1,
+                        Ok(got) => {
+                            let at = got.iter().zip(&want).position(|(a, b)| a != b);
+                            rep.violation(MON, "new_page_not_header_zeros_padding", &format!("boundary|{}x{}", ww, h), format!("Page::new({}x{}) — {} bytes of data, {} of padding — differs from header + zeros + FF padding at byte {:?} ({} bytes, expected {})", ww, h, 4 + ww * cb, want.len() as u32 - 4 - ww * cb, at, got.len(), want.len()), J::obj(vec![("workload", J::s("large pages around a chunk boundary")), ("width", J::Int(i128::from(ww))), ("height", J::Int(i128::from(h)))]));
+                        }
+                        Err(p) => rep.violation(MON, "panic", &format!("boundary|{}x{}", ww, h), format!("Page::new({}x{}): panic {} at {}", ww, h, p.msg, short_loc(&p.loc)), J::obj(vec![("workload", J::s("large pages around a chunk boundary"))])),
+                    }
+                }
+                picked += 1;
+                w += 4096 / cb + 7;
+            } else {
+                w += 1;
+            }
+        }
+    }
+    rep.add("large_new_pages_around_a_chunk_boundary", done as u64);
+}
+
 pub fn run(ctx: &Ctx) -> Outcome {
     let (bw, bh) = if ctx.quick() { (100u32, 48u32) } else { (256, 136) };
     let mut sizes: Vec<(u32, u32, bool)> = vec![]; // (w, h, sampled pixels only)
@@ -708,6 +741,7 @@ pub fn run(ctx: &Ctx) -> Outcome {
         same_coordinate_on_two_pages(&mut at_exit);
         fills_keep_what_is_not_pixels(&mut ctx.rng("fills", 0), &mut at_exit);
         nearly_uniform_pages(&mut at_exit);
+        large_pages_around_a_chunk_boundary(&mut at_exit);
         crate::exitprobe::check_migration("page", MON, &mut at_exit);
         report.merge(at_exit);
     }
@@ -716,6 +750,7 @@ pub fn run(ctx: &Ctx) -> Outcome {
         floor("the same coordinate set on two pages of different strides one right after the other (42 ordered pairs, every common pixel)", report.get("page_pairs_accessed_at_the_same_coordinates") == 42, report.get("page_pairs_accessed_at_the_same_coordinates")),
         floor("pages over the caller's bytes (arbitrary header and padding, borrowed and owned) filled, cleared and drawn on: nothing outside the pixel area changes", report.get("pages_over_the_callers_bytes_filled_and_drawn_on") == 120, report.get("pages_over_the_callers_bytes_filled_and_drawn_on")),
         floor("pages that are all one value but for one pixel (in every byte of the pixel area in turn), then filled", report.get("nearly_uniform_pages_filled") > 1_500, report.get("nearly_uniform_pages_filled")),
+        floor("new pages of 4 KiB and more whose data ends on, just before and just past a 16-byte boundary", report.get("large_new_pages_around_a_chunk_boundary") == 60, report.get("large_new_pages_around_a_chunk_boundary")),
         floor("every size of the box checked", report.get("box_sizes_done") == box_n as u64, report.get("box_sizes_done")),
         floor("11 real sizes and the tall / wide sizes checked pixel by pixel", report.get("real_sizes_done") == 11 + n_tall as u64, report.get("real_sizes_done")),
         floor("every large size checked", report.get("large_sizes_done") == n_large, report.get("large_sizes_done")),
